@@ -1396,7 +1396,14 @@ impl<D: DependencyProvider, RT: AsyncRuntime> Solver<D, RT> {
                 .as_solvable(&self.state.variable_map)
                 .map(|s| self.provider().solvable_name(s));
             if let Some(name_id) = name_id {
-                self.state.name_activity[name_id.to_usize()] += self.activity_add;
+                // The activity vector is sized when the candidates of a package arrive.
+                // A solvable that was requested directly as a soft requirement can take
+                // part in a conflict without its package ever having been looked at.
+                let idx = name_id.to_usize();
+                if self.state.name_activity.len() <= idx {
+                    self.state.name_activity.resize(idx + 1, 0.0);
+                }
+                self.state.name_activity[idx] += self.activity_add;
             }
         }
 
